@@ -13,7 +13,6 @@ RUNS = {"quick": 30000, "thorough": 1200000}
 BUDGET_S = {"quick": 45, "thorough": 480}
 BATCH = 40
 AFTER_CLOSE_S = 120.0
-TASKS_DONE_S = 45.0
 RULE = ("one run = client type x session shape (healthy / refusing / slow-to-accept gateway, traffic, faults, sends) x "
         "close() injected at an arbitrary loop iteration or virtual time (before connect, while connect awaits the "
         "transport, during back-off, connected idle, mid-packet, during a callback, during a send, right after a "
@@ -26,8 +25,9 @@ STUB = STUB_NET
 ASSUMPTIONS = ASSUME_NET + ["state is sampled once per event-loop iteration through the public `state` property",
                             "an attempt already in flight when close() starts may complete, provided the client shuts "
                             "it within 5 virtual seconds (a serial client first drains its configuration packet) and never reports CONNECTED",
-                            "client background tasks must be done within 45 virtual s of close() returning "
-                            "(covers the 10 s back-off cap and the 3 x 2 s seeding sleeps)"]
+                            "'background tasks finish' has no deadline: after the run the simulation continues (heartbeat "
+                            "stopped) until all tasks of the client are done or no timer, simulator event or ready callback "
+                            "is left; only tasks pending then (or 2 virtual hours later) are reported"]
 SHRINK_PATHS = [("script",), ("ops",), ("script", "*", "stream"), ("script", "*", "chunks")]
 EXHAUSTIVE = {"quick": "close() at every loop iteration of 1 base session per client type",
               "thorough": "close() at every loop iteration of 8 base sessions per client type"}
@@ -308,17 +308,19 @@ def evaluate(plan, o):
                           "at t=%.6f" % (len(late[0][2]), c["id"], late[0][0], rvt)))
             break
     # ---- K4: background tasks finish ----------------------------------------------------------------------------
-    if o.end_vt >= rvt + TASKS_DONE_S and not o.crashed:
-        late = []
-        for name, harness in o.tasks:
-            if harness:
-                continue
-            d = o.task_done.get(name)
-            if d is None or d > rvt + TASKS_DONE_S:
-                late.append((name, d))
-        if late:
-            v.append(viol("C14.K4" + sfx, end_ev, "%d task(s) created by the client still pending %.0f virtual s after close() "
-                          "returned: %s" % (len(late), TASKS_DONE_S, late[:4])))
+    # "finish" carries no deadline in the statement (a connect() parked in its back-off wait ends when the wait does,
+    # however long the maintainer makes it): the simulation is continued after the end of the run until every task
+    # of the client is done or nothing is left that could wake one - those never finish.
+    if o.never_finished and not o.crashed:
+        v.append(viol("C14.K4" + sfx, end_ev, "%d task(s) created by the client never finish after close() returned at t=%.3f "
+                      "(simulation continued to t=%.1f, %s): %s" %
+                      (len(o.never_finished), rvt, o.drain_end_vt,
+                       "nothing left that could wake them" if o.drain_end_vt < o.end_vt + 7200.0 else "still pending 2 virtual hours later",
+                       o.never_finished[:4])))
+    if o.never_finished is not None:
+        st["K4_judged"] = 1
+        if o.drain_end_vt is not None:
+            st["K4_tasks_outlived_the_run(drained)"] = 1
     return v, st, nontrivial
 
 
